@@ -63,6 +63,183 @@ Definition check_oscar_f (tf ti : string -> option Q) (pv : Q -> bool) (file : l
 """
 
 
+# ------------------------------------------------------------------ particle-object storer (Model/PObj.v)
+PO_PDG = [211, -211, 111, 2212, 2112, 22, 321, -321, 3122]
+PO_CHARGE = {211: 1, -211: -1, 111: 0, 2212: 1, 2112: 0, 22: 0, 321: 1, -321: -1, 3122: 0}
+PO_FILTERS = ["charged", "species", "mult", "energy", "charged+mult"]
+
+PO_PRELUDE = """From Coq Require Import List ZArith QArith Bool Arith.
+From SX Require Import Lib.Py Model.PObj.
+Import ListNotations.
+Definition mem (x : nat) (l : list nat) : bool := existsb (Nat.eqb x) l.
+Definition keep_ids (k : list nat) (e : list nat) : list nat := filter (fun p => mem p k) e.
+Definition mult_cut (m : nat) (e : list nat) : list nat := if (length e <? m)%nat then [] else e.
+Definition energy (tab : list (nat * Q)) (e : list nat) : Q :=
+  fold_left (fun acc p => match find (fun r => Nat.eqb (fst r) p) tab with Some r => Qred (acc + snd r) | None => acc end) e 0%Q.
+Definition energy_cut (tab : list (nat * Q)) (thr : Q) (e : list nat) : list nat :=
+  if Qle_bool thr (energy tab e) then e else [].
+Inductive pobs := PObsErr (e : errcls) | PObsOk (ev : list (list nat)) (n : Z) (c : list (Z * Z)).
+Definition err_eqb (a b : errcls) : bool :=
+  match a, b with
+  | TypeError, TypeError | ValueError, ValueError | IndexError, IndexError | KeyError, KeyError
+  | AttributeError, AttributeError | ZeroDivisionError, ZeroDivisionError | OtherError, OtherError => true
+  | _, _ => false
+  end.
+Definition zz_eqb (a b : Z * Z) : bool := (fst a =? fst b)%Z && (snd a =? snd b)%Z.
+Fixpoint leqb {A} (eq : A -> A -> bool) (a b : list A) : bool :=
+  match a, b with [], [] => true | x :: s, y :: t => eq x y && leqb eq s t | _, _ => false end.
+Definition check_pobj (flt : option (list nat -> result (list nat))) (s : psel) (evs : list (list nat)) (o : pobs) : nat :=
+  match pload nat flt s evs, o with
+  | Err e, PObsErr e' => if err_eqb e e' then 0 else 2
+  | Ok st, PObsOk ev n c =>
+    if negb (leqb (leqb Nat.eqb) (p_events nat st) ev) then 3
+    else if negb (p_nevents nat st =? n)%Z then 4
+    else if negb (leqb zz_eqb (p_counts nat st) c) then 5 else 0
+  | Ok _, PObsErr _ => 9
+  | Err _, PObsOk _ _ _ => 10
+  end%nat.
+"""
+
+
+def po_gen(rng):
+    nev = rng.choice([1, 2, 3, 4, 5, 6])
+    events, pid = [], 0
+    for _ in range(nev):
+        ev = []
+        for _ in range(rng.choice([0, 1, 2, 3, 5])):
+            pdg = rng.choice(PO_PDG)
+            ev.append({"id": pid, "pdg": pdg, "E": rng.choice([0.5, 1.0, 1.5, 2.25, 4.0]),
+                       "px": rng.choice([-1.0, 0.25, 0.5]), "py": 0.5, "pz": rng.choice([-2.0, 0.0, 1.0])})
+            pid += 1
+        events.append(ev)
+    return events
+
+
+def po_filter_arg(name):
+    """the constructor's filters= dictionary"""
+    return {"charged": {"charged_particles": True}, "species": {"particle_species": [211, 2212, 22]},
+            "mult": {"multiplicity_cut": (2, None)}, "energy": {"lower_event_energy_cut": 2.5},
+            "charged+mult": {"charged_particles": True, "multiplicity_cut": (2, None)}}[name]
+
+
+def po_expected_event(name, ev):
+    """what the documented filter keeps of ONE event (independent of sparkx)"""
+    from fractions import Fraction
+    if name == "charged":
+        return [p for p in ev if PO_CHARGE[p["pdg"]] != 0]
+    if name == "species":
+        return [p for p in ev if p["pdg"] in (211, 2212, 22)]
+    if name == "mult":
+        return ev if len(ev) >= 2 else []
+    if name == "energy":
+        return ev if sum(Fraction(p["E"]) for p in ev) >= Fraction(5, 2) else []
+    if name == "charged+mult":
+        e = [p for p in ev if PO_CHARGE[p["pdg"]] != 0]
+        return e if len(e) >= 2 else []
+    raise KeyError(name)
+
+
+def po_build(events):
+    from sparkx.Particle import Particle
+    out = []
+    for ev in events:
+        l = []
+        for s_ in ev:
+            p = Particle()
+            p.ID, p.pdg = s_["id"], s_["pdg"]
+            p.charge = PO_CHARGE[s_["pdg"]]
+            p.E, p.px, p.py, p.pz = s_["E"], s_["px"], s_["py"], s_["pz"]
+            l.append(p)
+        out.append(l)
+    return out
+
+
+def po_open(case, built=None):
+    import warnings
+    from sparkx.ParticleObjectStorer import ParticleObjectStorer
+    kw = {}
+    if case["sel"] is not None:
+        kw["events"] = tuple(case["sel"]) if isinstance(case["sel"], list) else case["sel"]
+    if case["filt"]:
+        kw["filters"] = po_filter_arg(case["filt"])
+    with warnings.catch_warnings():
+        warnings.simplefilter("ignore")
+        return ParticleObjectStorer(built if built is not None else po_build(case["events"]), **kw)
+
+
+def po_observe(case):
+    import numpy as np
+    try:
+        o = po_open(case)
+    except Exception as e:
+        return {"err": G.err_name(e), "msg": f"{type(e).__name__}: {e}"[:200]}
+    cnt = np.asarray(o.num_output_per_event())
+    return {"events": [[int(p.ID) for p in e] for e in o.particle_objects_list()], "nevents": int(o.num_events()),
+            "counts": cnt.tolist() if cnt.ndim == 2 else [[-999, -999]], "counts_shape": list(cnt.shape)}
+
+
+def po_coq_case(case, obs):
+    ev = coq_list([coq_list([f"{p['id']}%nat" for p in e]) for e in case["events"]])
+    sel = case["sel"]
+    csel = "PAll" if sel is None else (f"(POne {C.z(sel)}%Z)" if isinstance(sel, int) else f"(PRange {C.z(sel[0])}%Z {C.z(sel[1])}%Z)")
+    allp = [p for e in case["events"] for p in e]
+    keepc = coq_list([f"{p['id']}%nat" for p in allp if PO_CHARGE[p["pdg"]] != 0])
+    keeps = coq_list([f"{p['id']}%nat" for p in allp if p["pdg"] in (211, 2212, 22)])
+    etab = coq_list([f"({p['id']}%nat, {C.q(p['E'])})" for p in allp])
+    flt = {None: "None", "charged": f"(Some (fun e => Ok (keep_ids {keepc} e)))",
+           "species": f"(Some (fun e => Ok (keep_ids {keeps} e)))",
+           "mult": "(Some (fun e => Ok (mult_cut 2 e)))",
+           "energy": f"(Some (fun e => Ok (energy_cut {etab} (5 # 2) e)))",
+           "charged+mult": f"(Some (fun e => Ok (mult_cut 2 (keep_ids {keepc} e))))"}[case["filt"]]
+    if "err" in obs:
+        o = f"(PObsErr {obs['err']})"
+    else:
+        o = (f"(PObsOk {coq_list([coq_list([str(i) + '%nat' for i in e]) for e in obs['events']])} {C.z(obs['nevents'])}%Z "
+             f"{coq_list([f'({C.z(a)}, {C.z(b)})%Z' for a, b in obs['counts']])})")
+    return f"(check_pobj {flt} {csel} {ev} {o})"
+
+
+def po_oracle(case):
+    """C02 for the particle-object storer, stated on the real code: the object built with events= (and filters=) holds
+    exactly the selected events of the input list (the very same Particle objects, in order), filtered event by event,
+    with num_events / counts under the original positions, and particle_list() works"""
+    import numpy as np
+    events, sel = case["events"], case["sel"]
+    n = len(events)
+    if sel is None:
+        idx = list(range(n))
+    elif isinstance(sel, int):
+        idx = [sel]
+    else:
+        idx = list(range(sel[0], sel[1] + 1))
+    if not idx or min(idx) < 0 or max(idx) >= n or (isinstance(sel, list) and sel[0] > sel[1]):
+        return None                                    # not a valid selector: nothing is claimed
+    built = po_build(events)
+    try:
+        o = po_open(case, built)
+    except Exception as e:
+        return f"ParticleObjectStorer(events={sel}, filters={case['filt']}) raises {type(e).__name__}: {e}"[:300]
+    want = [[p for p in built[i]] for i in idx]
+    if case["filt"]:
+        want = [[built[i][events[i].index(s_)] for s_ in po_expected_event(case["filt"], events[i])] for i in idx]
+    got = o.particle_objects_list()
+    if len(got) != len(want) or any(len(a) != len(b) or any(x is not y for x, y in zip(a, b)) for a, b in zip(got, want)):
+        return (f"ParticleObjectStorer(events={sel}, filters={case['filt']}): holds particles "
+                f"{[[int(p.ID) for p in e] for e in got]}, the selected events (filtered one by one) are "
+                f"{[[int(p.ID) for p in e] for e in want]}")
+    if o.num_events() != len(want):
+        return f"events={sel}: num_events() = {o.num_events()}, {len(want)} events selected"
+    cnt = np.asarray(o.num_output_per_event())
+    exp_cnt = [[i, len(w)] for i, w in zip(idx, want)]
+    if cnt.tolist() != exp_cnt:
+        return f"events={sel} filters={case['filt']}: num_output_per_event() = {cnt.tolist()}, expected {exp_cnt}"
+    try:
+        o.particle_list()
+    except Exception as e:
+        return f"events={sel} filters={case['filt']}: particle_list() raises {type(e).__name__}: {e}"[:300]
+    return None
+
+
 def selectors(n, rng, quick):
     sels = [None] + list(range(n)) + [(a, b) for a in range(n) for b in range(a, n)]
     sels += [n, (0, n), (n - 1, n + 1), (n + 1, n + 2)]           # out of range
@@ -108,6 +285,8 @@ def oracle(case):
     tmp = os.path.join(C.VERIF, ".work")
     os.makedirs(tmp, exist_ok=True)
     sel = case["sel"]
+    if case["kind"] == "pobj":
+        return po_oracle(case)
     if case.get("filt"):
         return oracle_filtered(case, tmp)
     if case["kind"] == "jet":
@@ -247,6 +426,47 @@ def correspondence(ctx, model_ok=True):
         msg = oracle(cc)
         if msg:
             out["failures"].append(Failure(cc, "property oracle", on_impl=msg, key=classify(cc, msg)))
+    # ---- particle-object storer: every selector of every generated list, without and with constructor filters
+    pcases = []
+    for i in range(8 if ctx.quick else 80):
+        evs = po_gen(ctx.rng)
+        n = len(evs)
+        sels = [None] + list(range(n)) + [(a, b) for a in range(n) for b in range(a, n)]
+        sels += [n, n + 2, (0, n), (n, n + 1), -1, (1, 0), (-1, 0)]        # past the end (int: IndexError; pair: Python slice) / invalid
+        filts = [None] + (ctx.rng.sample(PO_FILTERS, 2) if ctx.quick else PO_FILTERS)
+        for sel in sels:
+            for f in filts:
+                pcases.append({"kind": "pobj", "events": evs, "sel": list(sel) if isinstance(sel, tuple) else sel, "filt": f})
+    pobs = [po_observe(c) for c in pcases]
+    ok, log = C.make(["Model/PObj.vo"])
+    if not ok:
+        out["broken"].append({"what": "particle-object model does not build", "detail": log[-800:]})
+        return out
+    pfiles = []
+    for i in range(0, len(pcases), 150):
+        body = coq_list([po_coq_case(c, o) for c, o in zip(pcases[i:i + 150], pobs[i:i + 150])])
+        pfiles.append((f"c02_po_{i//150}", PO_PRELUDE + f"Eval vm_compute in {body}.\n"))
+    pcodes = []
+    for (ok, o), (name, _) in zip(C.coq_eval_many(ctx, pfiles), pfiles):
+        if not ok:
+            out["broken"].append({"what": f"cases file {name} failed", "detail": o[-1500:]})
+            return out
+        pcodes += C.parse_codes(o)
+    if len(pcodes) != len(pcases):
+        out["broken"].append({"what": "particle-object cases output could not be parsed", "detail": f"{len(pcodes)} codes for {len(pcases)} cases"})
+        return out
+    out["evaluations"] += len(pcases)
+    out["distinct_nontrivial"] += len({json.dumps(c, sort_keys=True) for c, o in zip(pcases, pobs) if "err" not in o and c["sel"] is not None})
+    out["traces_validated_against_impl"] += sum(1 for c in pcodes if c == 0)
+    out["distribution"]["pobj"] = {"cases": len(pcases), "codes": dict(Counter(pcodes)), "impl": dict(Counter(o.get("err", "ok") for o in pobs)),
+                                   "filters": dict(Counter(str(c["filt"]) for c in pcases))}
+    for c, o, code in zip(pcases, pobs, pcodes):
+        if code != 0:
+            out["failures"].append(Failure(c, f"particle-object model/impl disagree code {code}; impl={json.dumps(o)[:300]}"))
+    for c in pcases:
+        msg = oracle(c)
+        if msg:
+            out["failures"].append(Failure(c, "property oracle", on_impl=msg))
     return out
 
 
